@@ -243,6 +243,11 @@ FACTORIES = [
     ('sorted-frozenset-keys', lambda: WithSettings({frozenset([1]): 1, frozenset([2, 3]): 2, frozenset(): 3}, sort_dict_keys=True)),
     ('sorted-str-keys-nested-in-tuple-keyed', lambda: WithSettings({(2, 'b'): {'z': 1, 'a': 2}, (1, 'c'): {'y': 0, 'b': 1}}, sort_dict_keys=True)),
     ('sorted-comparable-keys', lambda: WithSettings({'b': 1, 'a': {'d': 1, 'c': 2}, 'c': 0}, sort_dict_keys=True)),
+    # long sequences of short elements under a page (much) wider than the default, and the same values under the default page
+    ('wide-page-long-tuple', lambda: WithSettings(tuple(range(5)) * 11, width=200, ribbon_width=200)),
+    ('wide-page-long-list', lambda: WithSettings([[0] * 60, {'k': list('abcdefgh') * 8}], width=400, ribbon_width=400)),
+    ('wide-page-narrow-ribbon', lambda: WithSettings(list(range(70)), width=1000, ribbon_width=160)),
+    ('default-page-long-tuple', lambda: tuple(range(5)) * 11),
     ('narrow-truncated', lambda: WithSettings({'k': list(range(8)), 'j': ('x' * 30, 'y')}, width=20, max_seq_len=3, depth=2)),
     # comment texts with whitespace-only lines (an odd and an even number of them), and comments that must be wrapped
     ('trailing-comment-blank-line', lambda: P.trailing_comment([1, 2], '\n    text\n    ')),
